@@ -37,6 +37,7 @@ def plan(tier, seed):
         shards += [{"kind": kind, "seed": seed, "shard": i, "n": 120} for i in range(k)]
     shards += [{"kind": "cli", "seed": seed, "shard": i, "n": 12} for i in range(6 if tier == "quick" else 150)]
     shards += [{"kind": "table", "seed": seed, "shard": 0}]
+    shards += [{"kind": "mcp", "seed": seed, "shard": i, "n": 150} for i in range(2 if tier == "quick" else 30)]
     return shards
 
 
@@ -486,7 +487,59 @@ def run_table(desc):
             "samples": [{"key": list(keys[0]), "tool_rate": o["ok"][0]}]}
 
 
+def run_mcp(desc):
+    """MCP get_fx_rate equals the table (and fails for absent keys)."""
+    from ..mcpdrv import Session, call, check_history
+    rng = rng_for(PROP, desc["seed"], "mcp", desc["shard"])
+    codes = table_codes()
+    table = fxm.Table(known_codes())
+    months = fxm.bundled_months()
+    cnt = Counter()
+    viols = []
+    hashes = set()
+    sess = Session()
+    reqs = []
+    for i in range(desc["n"]):
+        c = rng.choice(codes)
+        y, m = rng.choice(months + [(2015, 12), (2026, 4), (2014, 12), (2030, 1)])
+        spell = rng.choice([c, c.lower(), c.title()])
+        reqs.append((call(i + 1, "get_fx_rate", {"currency": spell, "year": y, "month": m}), (c, y, m)))
+    for j in range(0, len(reqs), 25):
+        sess.send([r for r, _ in reqs[j:j + 25]])
+    sess.wait_for([r["id"] for r, _ in reqs], 120)
+    end = sess.finish()
+    hv, stats, resp = check_history(sess, end)
+    for name, detail in hv:
+        viols.append({"clause": "mcp-" + name, "signature": "mcp-" + name, "detail": detail, "case": {"op": "mcp"}})
+    for r, (c, y, m) in reqs:
+        a = resp.get(Session.idkey(r["id"]))
+        if a is None:
+            continue
+        cnt["mcp_fx_queries"] += 1
+        hashes.add(f"{c}:{y}-{m}")
+        want = table.rates(c, y, m)
+        try:
+            got = json.loads(a["result"]["content"][0]["text"])
+        except Exception:
+            got = None
+        if want:
+            if got is None or Fraction(got["rate"]) not in want or got["currency"] != c or got["period"] != f"{y}-{m:02d}":
+                viols.append({"clause": "mcp-rate-differs-from-table", "signature": "mcp-rate-differs-from-table",
+                              "detail": f"{c} {y}-{m:02d}: {json.dumps(a)[:160]} expected {[str(w) for w in want]}",
+                              "case": {"op": "mcp-request", "request": r}})
+            else:
+                cnt["mcp_fx_rates_equal_table"] += 1
+        elif got is not None:
+            viols.append({"clause": "mcp-rate-invented", "signature": "mcp-rate-invented",
+                          "detail": f"{c} {y}-{m:02d} absent from the table but answered {got}", "case": {"op": "mcp-request", "request": r}})
+        else:
+            cnt["mcp_fx_absent_keys_refused"] += 1
+    return {"evaluations": len(reqs), "nontrivial_hashes": hashes, "counters": cnt, "violations": viols[:20], "samples": []}
+
+
 def run_shard(desc):
+    if desc["kind"] == "mcp":
+        return run_mcp(desc)
     return {"model": run_model, "twin": run_twin, "missing": run_missing, "folder": run_folder, "cli": run_cli,
             "table": run_table}[desc["kind"]](desc)
 
@@ -508,7 +561,8 @@ THRESHOLDS = {"converted_BUY_price": 100, "converted_BUY_fees": 100, "converted_
               "converted_ACCUMULATION_total": 30, "twins": 500, "ledgers_straddling_a_month_end": 100,
               "lookups_of_overridden_keys": 200, "bad_folders_rejected": 50, "cli_conversions_at_override_rate": 10,
               "bundled_keys_compared": 15000, "missing_rate_cases_gap_2015_12": 50, "missing_rate_cases_after_last": 50,
-              "missing_rate_cases_code_not_in_table": 50, "missing_rate_cases_no_cache": 50}
+              "missing_rate_cases_code_not_in_table": 50, "missing_rate_cases_no_cache": 50, "mcp_fx_rates_equal_table": 150,
+              "mcp_fx_absent_keys_refused": 5}
 RULE = ("ledgers mixing GBP with currencies drawn from every code of the bundled table (price and fees may differ in "
         "currency), months 2015-01..2026-03 and beyond; (1) vs exact model on independently converted amounts, (2) "
         "literal pre-converted GBP twins, (3) absent rates (gap month 2015-12, before/after the table, code not in "
